@@ -375,6 +375,10 @@ pub fn check_outcome(o: &Outcome, ovh: usize, vsz: usize) -> Vec<Fail> {
             fail(&mut v, "C19", rest.to_owned());
         } else if let Some(rest) = m.strip_prefix("C12 ") {
             fail(&mut v, "C12", rest.to_owned());
+        } else if let Some(rest) = m.strip_prefix("C15 ") {
+            fail(&mut v, "C15", rest.to_owned());
+        } else if let Some(rest) = m.strip_prefix("C11 ") {
+            fail(&mut v, "C11", rest.to_owned());
         } else {
             fail(&mut v, "C06", m.clone());
         }
@@ -438,7 +442,11 @@ pub fn check_outcome(o: &Outcome, ovh: usize, vsz: usize) -> Vec<Fail> {
     }
     // C20: hashing bound
     let deps = ex.departed.len() as u64;
-    let rebuilt = match &o.post {
+    // only the operations the property names may rebuild the table (and then hash each held entry once):
+    // reserve, try_reserve, shrink_to, shrink_to_fit and an insertion that grows it (clone is checked apart)
+    let may_rebuild = matches!(op, OpKind::Reserve(_) | OpKind::TryReserve(_) | OpKind::Shrink(_) | OpKind::ShrinkFit
+        | OpKind::Ins { .. } | OpKind::TIns { .. });
+    let rebuilt = may_rebuild && match &o.post {
         Some(p) => p.alloc_ptr != pre.alloc_ptr || p.bk != pre.bk,
         None => false,
     };
@@ -726,6 +734,14 @@ pub fn check_panic(o: &Outcome) -> Vec<Fail> {
                 let still = post.ord.iter().any(|x| x.k.tok == e.k.tok);
                 if !still && !rejected.contains(&e.k.tok) {
                     fail(&mut v, "C16", format!("after a panic in the closure of `{}` entry {} is lost although it was not rejected", op.text(), e.k.id));
+                }
+            }
+            // C05: retain never changes the relative order of the entries that remain — also when it is cut short
+            if matches!(op, OpKind::RetainIdx(_) | OpKind::RetainIds(_)) {
+                let before: Vec<u64> = pre.ord.iter().map(|e| e.k.tok).filter(|t| post.ord.iter().any(|x| x.k.tok == *t)).collect();
+                let after: Vec<u64> = post.ord.iter().map(|e| e.k.tok).collect();
+                if before != after {
+                    fail(&mut v, "C05", format!("`{}` cut short by a panic of its predicate left the remaining entries in another relative order", op.text()));
                 }
             }
             if matches!(kind, Kind::Closure) && (post.ord != pre.ord || post.cur != pre.cur) {
